@@ -88,6 +88,53 @@ Theorem deepcopy_needed :
 Proof. exact deepcopy_needed_l. Qed.
 Print Assumptions deepcopy_needed.
 
+(* Execution modes (Model/Modes.v, end of Model/Session.v): an operation's `inline` flag is inline_of its mode; THREADING and
+   MULTIPROCESSING are the asynchronous back end with an arbitrary schedule.  The statements above quantify over `inline` and
+   the schedule of every operation, hence over every mix of SYNC / THREADING / MULTIPROCESSING operations; spelled out: *)
+Require Import MV.Model.Modes.
+
+(* whatever modes the earlier operations of the history ran in (remode ms pre: the i-th one in mode ms[i]) *)
+Theorem run_after_any_modes : forall p a0 pre ms o, is_run o = true ->
+  snd (exec true (after sess op result (exec true) (prepare p a0) (remode ms pre)) o) = alone p a0 o.
+Proof. exact run_after_any_modes_l. Qed.
+Print Assumptions run_after_any_modes.
+
+(* two histories, any operations, any modes: the next run cannot tell them apart *)
+Theorem run_history_irrelevant : forall p a0 pre pre' o, is_run o = true ->
+  snd (exec true (after sess op result (exec true) (prepare p a0) pre) o)
+  = snd (exec true (after sess op result (exec true) (prepare p a0) pre') o).
+Proof. exact run_history_irrelevant_l. Qed.
+Print Assumptions run_history_irrelevant.
+
+(* a run carried out in mode m after any history = the run in mode m on a brand-new orchestrator *)
+Theorem run_in_mode_history_independent : forall p a0 pre m o, is_run o = true ->
+  snd (exec true (after sess op result (exec true) (prepare p a0) pre) (set_mode m o)) = alone p a0 (set_mode m o).
+Proof. exact run_in_mode_history_independent_l. Qed.
+Print Assumptions run_in_mode_history_independent.
+
+Theorem threading_and_multiprocessing_one_model : forall o, set_mode MThreading o = set_mode MMultiprocessing o.
+Proof. exact threading_mp_same_l. Qed.
+Print Assumptions threading_and_multiprocessing_one_model.
+
+Theorem master_plan_flags_clean_any_modes : forall p a0 ms h,
+  s_flags (after sess op result (exec true) (prepare p a0) (remode ms h)) = [].
+Proof. exact master_flags_clean_modes_l. Qed.
+Print Assumptions master_plan_flags_clean_any_modes.
+
+(* non-vacuity: SYNC run, failing MULTIPROCESSING run, THREADING stream abandoned after 1 item, then a MULTIPROCESSING run *)
+Example C07_modes_example :
+  let h := [ run_in MSync (ex_api 1) [] (sched ex_plan [] 7);
+             run_in MMultiprocessing (ex_api 2) [0] (sched ex_plan [0] 7);
+             stream_in MThreading None [] (sched ex_plan [] 7) (Some 1) ] in
+  map r_status (results_of sess op result (exec true) (prepare ex_plan (ex_api 0)) h) = [ROk; RRaised; RAbandoned] /\
+  snd (exec true (after sess op result (exec true) (prepare ex_plan (ex_api 0)) h)
+            (run_in MMultiprocessing None [] (sched ex_plan [] 7)))
+    = {| r_status := ROk; r_items := [1]; r_api := ex_api 0 |} /\
+  remode [MMultiprocessing; MSync] h = [ run_in MMultiprocessing (ex_api 1) [] (sched ex_plan [] 7);
+                                         run_in MSync (ex_api 2) [0] (sched ex_plan [0] 7);
+                                         stream_in MThreading None [] (sched ex_plan [] 7) (Some 1) ].
+Proof. vm_compute. repeat split; reflexivity. Qed.
+
 (* a non-trivial instance: SYNC run, failing THREADING run, stream abandoned after 1 item, then a run with other api data *)
 Example C07_session_example :
   let h := [ ORun (ex_api 1) true [] (sched ex_plan [] 7);
